@@ -105,6 +105,7 @@ func Run(k *report.Check) {
 	k.Assumptions = []string{"in-memory StorageLocation with lexicographic listing", "publication goroutines are awaited after every event (their interleavings are C13's subject)"}
 	k.Budget(100, 900)
 	p := params{depth: k.Pick(14, 24)}
+	k.Parts(3)
 	k.Explore(fmt.Sprintf("store/d=%d", p.depth), mc.Config{}, p, body)
 	bound := k.Pick(3, 4)
 	for n := 1; n <= 2; n++ {
